@@ -60,5 +60,6 @@ SILENT_EDITS = [   # behaviour-preserving, all exit 0
 
 
 def run(ctx):
+    from ..rules import parlists
     return [pC31.rule_hooks(ctx), pC31.rule_temps(ctx), typed.rule_I3(ctx, modules=('MatchCaseNodes',), floor=10),
-            pC31.rule_forwarders(ctx), pC31.rule_sections(ctx), pC31.rule_cfa(ctx)]
+            pC31.rule_forwarders(ctx), pC31.rule_sections(ctx), pC31.rule_cfa(ctx), parlists.rule_par(ctx)]
